@@ -65,6 +65,10 @@ func c06Alphabet(n int, big bool) []SOp {
 		SOp{Kind: "upds", Rules: [][]string{A, mk("d")}, News: [][]string{A, mk("e")}},
 		SOp{Kind: "rmf", FI: 0, Vals: []string{A[0]}}, SOp{Kind: "rmf", FI: n - 1, Vals: []string{"x"}},
 		SOp{Kind: "rmf", FI: 0, Vals: []string{"", B[1]}},
+		// a fixed-width filter padded with empty values beyond the rule's last field: empty values select nothing
+		// out, wherever they stand
+		SOp{Kind: "rmf", FI: 0, Vals: append([]string{A[0]}, make([]string, n+1)...)},
+		SOp{Kind: "rmf", FI: n - 1, Vals: []string{"x", "", ""}},
 	)
 	if c06Extra > 0 {
 		// filters that reach into the columns beyond the definition: they select by those values too
@@ -104,6 +108,7 @@ func c06Probes(n int) []SOp {
 	return []SOp{
 		{Kind: "has", Rule: mk("a")}, {Kind: "has", Rule: mk("b")}, {Kind: "has", Rule: mk("c")}, {Kind: "has", Rule: mk("d")},
 		{Kind: "getf", FI: n - 1, Vals: []string{"x"}}, {Kind: "getf", FI: 0, Vals: []string{"a0"}},
+		{Kind: "getf", FI: n - 1, Vals: []string{"x", "", ""}},
 	}
 }
 
@@ -119,7 +124,7 @@ func runC06(c *Ctx) {
 	if c.Thorough() {
 		depth = 4
 	}
-	c.Rule = fmt.Sprintf("all histories of depth <= %d over an alphabet of Add/Remove/Update/RemoveFiltered and batch/Ex variants on three rules, for p (arity 3), p2 (arity 2), g, g with rules that carry a column beyond the definition (filters reach into it) and a definition with a priority field (insertion by priority shifts the index map), through the Enforcer API, observing result, GetPolicy order and the exported PolicyMap after every call and HasPolicy/GetFilteredPolicy probes at the end (exhaustive); plus seeded random histories to length 60 over a universe with separator-like fields (',', '$$', NUL, blanks, empty), over-long rules, update chains; after loads whose sorts (subject hierarchy, explicit priority) re-order the rules: index vs list, removal by value of every listed rule (implementation only); every exported SyncedEnforcer method vs the Enforcer method it wraps on twin enforcers (results, rules, store, notifications, decisions; implementation only); non-trivial = at least one call that changed the store and one that reported false; distinct = whole history", depth)
+	c.Rule = fmt.Sprintf("all histories of depth <= %d over an alphabet of Add/Remove/Update/RemoveFiltered and batch/Ex variants on three rules, for p (arity 3), p2 (arity 2), g, g with rules that carry a column beyond the definition (filters reach into it) and a definition with a priority field (insertion by priority shifts the index map), through the Enforcer API, observing result, GetPolicy order and the exported PolicyMap after every call and HasPolicy/GetFilteredPolicy probes at the end (exhaustive); plus seeded random histories to length 60 over a universe with separator-like fields (',', '$$', NUL, blanks, empty), over-long rules, update chains; after loads whose sorts (subject hierarchy, explicit priority) re-order the rules: index vs list, removal by value of every listed rule (implementation only); every exported SyncedEnforcer method vs the Enforcer method it wraps on twin enforcers (results, rules, store, notifications, decisions; implementation only); every enumerated history ends with the listing handed straight back to the batch removal (RemovePolicies(GetPolicy())); non-trivial = at least one call that changed the store and one that reported false; distinct = whole history", depth)
 	targets := []storeTarget{{"p", "p", 3, false, 0}, {"p", "p2", 2, false, 0}, {"g", "g", 2, false, 0}, {"p", "p3", 3, true, 0}, {"g", "g", 2, false, 1}}
 	caseNo := 0
 	for _, t := range targets {
@@ -204,6 +209,16 @@ func runC06(c *Ctx) {
 			}
 			for _, pr := range probes {
 				c.W.Op(pr.Line(), execStore(e, t.sec, t.ptype, pr))
+			}
+			// finally the listing handed straight back to the batch removal (RemovePolicies(GetPolicy())): it
+			// removes every listed rule, whatever the library does to its own list on the way
+			if now := cloneRules(e.GetModel()[t.sec][t.ptype].Policy); len(now) > 1 && !dupSeen {
+				o := SOp{Kind: "rms", Rules: now, Listed: true}
+				c.W.Op(o.Line(), execStore(e, t.sec, t.ptype, o))
+				for _, pr := range probes {
+					c.W.Op(pr.Line(), execStore(e, t.sec, t.ptype, pr))
+				}
+				c.Count("listing_handed_back_removals", 1)
 			}
 			c.Evals++
 			if changed && refused {
